@@ -50,39 +50,43 @@ def resolve_key(b, operand):
 def sign_table(P, chk):
     b = P.body(AMOUNT)
     chk.analysed(b)
+    # one row per distinct successful way through the function: which column the value is read from, how often it is
+    # negated, which emptiness tests and which account type were seen on the way.  Each enumerated path is judged on its
+    # own straight-line copy, so values that meet in a shared temporary (`Ok(match ..)`, `(text, is_debit)`) stay apart.
     rows = []
-    for bb, v, rv in q.ok_err_assignments(b):
-        if v != "Ok":
+    seen = set()
+    acct = None
+    for i in range(1, b.argc + 1):
+        if "AccountType" in b.local_ty(i):
+            acct = i
+    try:
+        paths = mir.enumerate_paths(b, limit=6000)
+    except mir.TooManyPaths:
+        chk.fail(R_SIGN, "FieldMap::amount|analysable", b.loc(), "more than 6000 paths")
+        return
+    for p in paths:
+        pb = mir.path_body(b, p.blocks)
+        oks = [(bb, v, rv) for bb, v, rv in q.ok_err_assignments(pb) if v == "Ok"]
+        if not oks or any(v == "Err" or v.startswith("call:") for bb, v, rv in q.ok_err_assignments(pb)):
             continue
+        bb, v, rv = oks[-1]
         payload = rv["fields"][0]["op"]
-        # an `Ok(match ..)` temporary: look at every definition of the payload local
-        defs = [payload]
-        if payload.get("k") in ("copy", "move") and not payload["place"]["p"]:
-            ds = [d for d in b.defs().get(payload["place"]["l"], []) if not d[3]["p"]]
-            if len(ds) > 1:
-                defs = []
-                for dk, dbb, di, dpl, pl in ds:
-                    if dk == "assign" and pl["k"] == "use":
-                        defs.append((dbb, pl["op"]))
-                    elif dk == "call":
-                        defs.append((dbb, {"k": "copy", "place": {"l": payload["place"]["l"], "p": []}, "_site": dbb}))
-        for d in defs:
-            dbb, op = (bb, d) if isinstance(d, dict) else d
-            if isinstance(d, tuple) and "_site" in op:
-                # value produced by a call (e.g. Neg::neg) into the shared temporary
-                t = b.term(dbb)
-                keys, negs = resolve_key(b, t["args"][0])
-                if callee_def(t) == "std::ops::Neg::neg":
-                    negs = set((n + 1) % 2 for n in negs)
-            else:
-                keys, negs = resolve_key(b, op)
-            guards = []
-            for cn, lab, ct in q.guard_calls(b, dbb):
-                if short(cn) == "is_empty":
-                    k2, _ = resolve_key(b, ct["args"][0])
-                    guards.append(("%s.is_empty" % "/".join(sorted(k2)), lab))
-            accts = [labs for roots, labs in q.variant_guards(b, dbb) if any(q.is_param(r, "at") for r in roots)]
-            rows.append((tuple(sorted(keys)), tuple(sorted(negs)), tuple(sorted(guards)), tuple(accts), b.loc(dbb)))
+        keys, negs = resolve_key(pb, payload)
+        # a negation applied by an explicit call whose result lands in the payload
+        guards = set()
+        accts = set()
+        for a in p.atoms:
+            if a.kind == "call" and short(a.subject[0]) == "is_empty" and len(a.label) == 1:
+                site = a.subject[2]
+                if site in p.blocks:
+                    k2, _ = resolve_key(pb, pb.term(p.blocks.index(site))["args"][0])
+                    guards.add(("%s.is_empty" % "/".join(sorted(k2)), a.label[0]))
+            if a.kind == "variant" and acct is not None and any(r.kind == "param" and r.name.startswith("%d:" % acct) for r in a.subject):
+                accts.add(tuple(a.label))
+        row = (tuple(sorted(keys)), tuple(sorted(negs)), tuple(sorted(guards)), tuple(sorted(accts)))
+        if row not in seen:
+            seen.add(row)
+            rows.append(row + (b.loc(p.blocks[-1]),))
     chk.add_paths(len(rows))
     want = {
         "credit": lambda r: r[0] == ("Credit",) and r[1] == (0,) and ("Credit.is_empty", False) in r[2],
@@ -245,6 +249,12 @@ def row_order(P, chk):
             ds = mir.describe_switch(b, s)
             if ds and ds[0] == "variant" and any(r.kind == "param" and "row_order" in r.fields for r in ds[1]):
                 arms = (s, ds[2])
+        if arms is None:
+            # `if config.format.row_order == RowOrder::NewToOld { .. }`
+            for s, roots, var, is_v, not_v in q.enum_eq_tests(b):
+                if any(r.kind == "param" and "row_order" in r.fields for r in roots) and var in ("NewToOld", "OldToNew"):
+                    oth = "OldToNew" if var == "NewToOld" else "NewToOld"
+                    arms = (s, {is_v: [var], not_v: [oth]})
         ok = arms is not None
         detail = "no match on config.format.row_order"
         if ok:
